@@ -269,7 +269,6 @@ package server
 // ghost.active[p][g]: the cancel channel of the running, not yet cancelled subscription loop of group g
 // on partition p (nil if none). Lock invariant of consumersMu: that loop's subscription is the one in the table.
 //@ ghost var active ghostmap[*partition]ghostmap[string]chan struct{}
-//@ ghost var me chan struct{}
 //@ lockinv partition.consumersMu guards consumers, ghost.active serves C13: self.consumers != nil && forall g string :: ghost.active[self][g] != nil ==> (g in self.consumers) && self.consumers[g] != nil && allocated(self.consumers[g]) && self.consumers[g].sub != nil && allocated(self.consumers[g].sub) && self.consumers[g].sub.closed == ghost.active[self][g]
 
 // Subscribe: an older epoch is refused with table and active subscription untouched; otherwise the
@@ -282,9 +281,8 @@ package server
 //@   call startGoroutine requires [previous-cancelled-first] groupID == "" || ghost.active[p][groupID] == nil
 //@   call Close requires [only-with-newer-or-equal-epoch] arg0 == p.consumers[groupID].sub && p.consumers[groupID].groupEpoch <= groupEpoch
 
-// removeGroupSubscriber is run by an ending subscription loop (ghost.me = that loop's cancel channel):
+// removeGroupSubscriber is run by an ending subscription loop, identified by its cancel channel:
 // it may only remove the table entry that belongs to that very subscription.
-//@ func (*partition).newSubscribeLoop$1 serves C13
-//@   ghost before call removeGroupSubscriber: ghost.me := cancel
 //@ func (*partition).removeGroupSubscriber serves C13
-//@   ghost after call Lock: ghost.active[p][groupID] := (ghost.active[p][groupID] == ghost.me ? nil : ghost.active[p][groupID])
+//@   ghost after call Lock: ghost.active[p][groupID] := (ghost.active[p][groupID] == cancel ? nil : ghost.active[p][groupID])
+//@ callers (*partition).removeGroupSubscriber serves C13: (*partition).newSubscribeLoop
